@@ -62,7 +62,19 @@ class Judge:
         ad = e3.adaptor_for(p)
         cap = 256 if ctx.tier == "quick" else 1024
         nvals = 0
-        for val in values.enumerate_values(p.node, env, cap=cap):
+        first = []
+
+        def all_values():
+            for val in values.enumerate_values(p.node, env, cap=cap):
+                if not first:
+                    first.append(val)
+                yield val
+            for base in first[:1]:
+                for _label, val in values.boundary_values(p.node, env, base, short_too=info.ident.startswith("corpus:")):
+                    ctx.counts["length_boundary_values"] += 1
+                    yield val
+
+        for val in all_values():
             try:
                 obj = ad.build(ld.cls, p.node, val)
             except Exception:  # noqa: BLE001 - not constructible: outside C02's quantifier (C01 judges it)
@@ -145,6 +157,7 @@ def run(tier, seed):
         "values": counts["values"],
         "not_constructible": counts["not_constructible"],
         "not_loadable": counts["not_loadable"],
+        "length_boundary_values": counts["length_boundary_values"],
         "skipped_no_prescribed_bytes": counts["skipped_sererror"] + counts["skipped_valueerror"] + counts["skipped_unspecified"],
         "spelling_programs": counts["spelling_programs"],
         "spelling_comparisons": counts["spelling_comparisons"],
